@@ -11,7 +11,7 @@ from harness import common, trees, treeimpl, updimpl
 from harness.common import cps, uncps
 from harness.props import c03
 
-BRIDGE = ('Gemato.Bridge.Cli', 'Gemato.Bridge.SrcCli', 'Gemato.Bridge.SrcUpdate', 'Gemato.Bridge.SrcVerify', 'Gemato.Bridge.SrcLoader')
+BRIDGE = ('Gemato.Bridge.Cli', 'Gemato.Bridge.SrcCli', 'Gemato.Bridge.SrcUpdate', 'Gemato.Bridge.SrcVerify', 'Gemato.Bridge.SrcLoader', 'Gemato.Bridge.SrcText')
 PROPS = ['Gemato.Props.C11']
 ZONES = ['UTC0', 'JST-9', 'EST5', '<+14>-14', '<-11>11',
          # zones with daylight-saving rules (POSIX TZ strings: no tzdata needed), northern and southern
